@@ -1,4 +1,5 @@
 import Xo.Model.CSem
+import Xo.Model.CPath
 import Xo.Drv.Util
 /-! line-protocol driver for the C generator (component `capi`)
 
@@ -27,6 +28,28 @@ def ldOf (m : Array UInt8) (a : Int) : Int :=
   let u := (List.range 8).foldl (fun acc i => acc + (m.getD (o + i) 0).toNat * 256 ^ i) 0
   if u ≥ 2 ^ 63 then (u : Int) - 2 ^ 64 else (u : Int)
 
+/-- the selector path of a reference-free access path of the generator (field numbers; index parts without their indices) -/
+def selsOf : List Part → Option Ty → Option (List Lay.Sel)
+ | [], _ => some []
+ | .ty (.ref _) :: _, _ => none
+ | .ty (.unionref ..) :: _, _ => none
+ | .ty t :: ps, _ => selsOf ps (some t)
+ | .field n _ _ :: ps, some (.struct _ fs) =>
+    let k := fs.findIdx (·.1 == n)
+    if k < fs.length then (selsOf ps none).map (Lay.Sel.field k :: ·) else none
+ | .index _ :: ps, _ => (selsOf ps none).map (Lay.Sel.item [] :: ·)
+ | _, _ => none
+
+/-- `cparts` (the subject of the path theorem) builds exactly the access paths the generator emits accessors for -/
+def cpartsAgrees (t : Ty) (fs : List (String × CFun)) : Option String :=
+  fs.findSome? fun (n, f) =>
+    match selsOf f.path none with
+    | none => none                                   -- a path through a reference: outside the theorem
+    | some sels =>
+      match Lay.cparts t sels with
+      | some (ps, _) => if toString (repr ps) == toString (repr f.path) then none else some n
+      | none => some n
+
 def esc (s : String) : String := s.replace "\n" "\\n"
 
 def restAfter (line : String) (n : Nat) : String :=
@@ -42,7 +65,9 @@ def step (s : St) (line : String) : St × String :=
     match parseTy (restAfter line 1) with
     | some t =>
       let fs := (allFuns t).map fun f => (f.name, f)
-      ({ s with ty := some t, funs := fs }, s!"ok {fs.length}")
+      match cpartsAgrees t fs with
+      | some bad => ({ s with ty := some t, funs := fs }, s!"PROOF-MODEL-DIFFERS cparts {bad}")
+      | none => ({ s with ty := some t, funs := fs }, s!"ok {fs.length}")
     | none => (s, "bad-op")
   | ["mem", h] =>
     match unhex h with
